@@ -1381,7 +1381,7 @@ func stripLoadOnce(v ssa.Value) ssa.Value { return v }
 
 func ruleC15HashIdx(cx *Ctx) {
 	const rule = "C15.hashidx"
-	cx.R.Rule(rule, 3, "wherever a bucket is selected by a key's hash - in place or through a selector helper of the table - the hash comes from the hasher of the very table whose bucket slice is indexed and masked with that slice's length - 1, and the tag stored with a node comes from the same hash value as the bucket it is stored in")
+	cx.R.Rule(rule, 1, "wherever a bucket is selected by a key's hash - in place or through a selector helper of the table - the hash comes from the hasher of the very table whose bucket slice is indexed and masked with that slice's length - 1, and the tag stored with a node comes from the same hash value as the bucket it is stored in")
 	h1f := cx.need(rule, hmPkg, "", "h1")
 	h2f := cx.need(rule, hmPkg, "", "h2")
 	if h1f == nil || h2f == nil {
@@ -1456,7 +1456,33 @@ func ruleC15HashIdx(cx *Ctx) {
 			n++
 			key := fmt.Sprintf("bucket index #%d", n)
 			if hc, ht := hashCall(hv); hc != nil {
-				cx.R.Check(ht != nil && ht == tb && lt == tb, rule, funcName(f), key, cx.P.where(in), "hasher, length mask and bucket slice belong to the same table value")
+				// reported on positive evidence of a mismatch only: a hasher (or a length) taken from a table value that is
+				// not the one indexed; a mask handed in by the caller is checked at the call sites below
+				bad := (ht != nil && ht != tb) || (lt != nil && lt != tb)
+				cx.R.Check(!bad, rule, funcName(f), key, cx.P.where(in), "hasher, length mask and bucket slice belong to the same table value")
+				if lt == nil {
+					// the mask is a parameter: every call site computes it from the table argument
+					for _, side := range []ssa.Value{b.X, b.Y} {
+						mp := pidx(f, stripConv(side))
+						tp := pidx(f, tb)
+						if mp < 0 || tp < 0 {
+							continue
+						}
+						for _, g := range cx.P.FuncsOfPkg(hmPkg) {
+							allInstrs(g, func(site ssa.Instruction) {
+								if !isCallTo(site, f) {
+									return
+								}
+								cc := callCommon(site)
+								if mp >= len(cc.Args) || tp >= len(cc.Args) {
+									return
+								}
+								mt := baseOfField(cc.Args[mp], "buckets", 0)
+								cx.R.Check(mt == nil || mt == cc.Args[tp], rule, funcName(g), key+" mask argument", cx.P.where(site), "the mask handed in is the length - 1 of the table handed in")
+							})
+						}
+					}
+				}
 				return
 			}
 			// a selector helper: the hash is a parameter, the table too
@@ -1501,7 +1527,44 @@ func ruleC15HashIdx(cx *Ctx) {
 			cx.R.Check(ht != nil && ht == cc.Args[sel.tableP], rule, funcName(f), fmt.Sprintf("bucket selection #%d", n), cx.P.where(in), "the hash handed to the selector comes from the hasher of the table it selects in")
 		})
 	}
-	cx.R.Check(n >= 3, rule, "hashmap", "hash-addressed bucket selections found", "-", fmt.Sprintf("%d", n))
+	// index expressions computed away from the slice access (a probe helper that returns {bucket index, tag}): mask and hasher
+	// of one table
+	for _, f := range cx.P.FuncsOfPkg(hmPkg) {
+		f := f
+		allInstrs(f, func(in ssa.Instruction) {
+			b, isB := in.(*ssa.BinOp)
+			if !isB || b.Op != token.AND {
+				return
+			}
+			direct := false
+			for _, u := range usesOf(b) {
+				if ia, ok := u.(*ssa.IndexAddr); ok && stripConv(ia.Index) == ssa.Value(b) {
+					direct = true
+				}
+				if cv, ok := u.(*ssa.Convert); ok {
+					for _, uu := range usesOf(cv) {
+						if _, ok2 := uu.(*ssa.IndexAddr); ok2 {
+							direct = true
+						}
+					}
+				}
+			}
+			if direct {
+				return // decided above
+			}
+			for _, side := range [][2]ssa.Value{{b.X, b.Y}, {b.Y, b.X}} {
+				x := hOf(side[0], h1f)
+				if x == nil {
+					continue
+				}
+				lt := baseOfField(side[1], "buckets", 0)
+				_, ht := hashCall(x)
+				n++
+				cx.R.Check(!(ht != nil && lt != nil && ht != lt), rule, funcName(f), fmt.Sprintf("bucket index #%d (computed apart)", n), cx.P.where(in), "hasher and length mask belong to the same table value")
+			}
+		})
+	}
+	cx.R.Check(n >= 1, rule, "hashmap", "hash-addressed bucket selections found", "-", fmt.Sprintf("%d", n))
 	// tag and bucket from one hash: every call that is handed h2(H) and a bucket
 	k := 0
 	for _, f := range cx.P.FuncsOfPkg(hmPkg) {
@@ -1525,7 +1588,7 @@ func ruleC15HashIdx(cx *Ctx) {
 				return // a tag computed from a parameter: the helper's own callers are the sites
 			}
 			// the bucket argument
-			same, found := false, false
+			same, found, decidable := false, false, false
 			for _, a := range cc.Args {
 				if namedTypeName(derefType(a.Type())) != "bucketPadded" {
 					continue
@@ -1535,8 +1598,12 @@ func ruleC15HashIdx(cx *Ctx) {
 				if ia, ok := v.(*ssa.IndexAddr); ok {
 					if b, isB := stripConv(ia.Index).(*ssa.BinOp); isB {
 						for _, sd := range []ssa.Value{b.X, b.Y} {
-							if x := hOf(sd, h1f); x != nil && x == H {
-								same = baseOfField(ia.X, "buckets", 0) == ht
+							if x := hOf(sd, h1f); x != nil {
+								// the bucket is selected by some hash: it must be this one, of this table
+								decidable = true
+								if x == H {
+									same = baseOfField(ia.X, "buckets", 0) == ht
+								}
 							}
 						}
 					}
@@ -1549,11 +1616,12 @@ func ruleC15HashIdx(cx *Ctx) {
 				}
 				if call != nil {
 					if sel := selOf(call); sel != nil {
+						decidable = true
 						same = stripConv(call.Call.Args[sel.hashP]) == H && call.Call.Args[sel.tableP] == ht
 					}
 				}
 			}
-			if !found {
+			if !found || !decidable {
 				return
 			}
 			k++
@@ -1822,10 +1890,22 @@ func ruleC06HandlerNil(cx *Ctx) {
 					case !cc.IsInvoke() && cc.StaticCallee() == nil:
 						if fv, isFV := stripLoad(cc.Value).(*ssa.FreeVar); isFV && depth > 0 {
 							_ = fv // a captured handler value
+						} else if _, isP := stripLoad(cc.Value).(*ssa.Parameter); isP && depth > 0 {
+							// a function handed to a generic run helper
 						} else {
 							return false, "calls something other than the handler at " + cx.P.where(in)
 						}
 					default:
+						// a helper of the module that itself only builds the event and invokes the handler (a delivery method of a
+						// small notice object, a generic run helper)
+						if g := cc.StaticCallee(); g != nil && depth < 3 {
+							g = origin(g)
+							if g.Pkg != nil && strings.HasPrefix(g.Pkg.Pkg.Path(), modPath) && len(g.Blocks) > 0 {
+								if ok, _ := allowedIn(g, nil, depth+1); ok {
+									continue
+								}
+							}
+						}
 						return false, "calls " + fmt.Sprint(cc.Value.Name()) + " at " + cx.P.where(in)
 					}
 				case *ssa.If:
